@@ -249,11 +249,23 @@ def _(v):
         withu = v.call(fn, (co / table.scale["cu1"]) * cu1, (ci / table.scale["cu2"]) * cu2, z, T * u.K, None, u)
         v.prove("dimension_is_volt", dimv(withu) == (2, 1, -3, -1, 0, 0, 0))
         v.prove_identity("same_physical_value_any_concentration_units", si(v, withu), plain)
+        # a constants object whose constants carry their units, alone and together with a units object: the same voltage both times
+        import types
+        consts = types.SimpleNamespace(Faraday_constant=Fc * u.coulomb / u.mol, molar_gas_constant=Rg * u.joule / u.kelvin / u.mol)
+        for label, uarg in (("constants_only", None), ("constants_and_units", u)):
+            withc = v.call(fn, (co / table.scale["cu1"]) * cu1, (ci / table.scale["cu2"]) * cu2, z, T * u.K, consts, uarg)
+            v.prove(label + ".dimension_is_volt", dimv(withc) == (2, 1, -3, -1, 0, 0, 0))
+            v.prove_identity(label + ".same_physical_value", si(v, withc), plain)
     else:
         v.prove("formula", v.eq(plain, float(Rg) * T / (z * float(Fc)) * math.log(co / ci), rel=1e-12))
-        from chempy.units import default_units as u
+        from chempy.units import default_units as u, default_constants
         withu = v.call(fn, co * 1e3 * u.mM, ci * u.M, z, T * u.K, None, u)
         v.prove("same_physical_value_any_concentration_units", v.eq(si(v, withu, u.volt), plain, rel=1e-9, abs_=1e-12))
+        for label, uarg in (("constants_only", None), ("constants_and_units", u)):
+            withc = v.call(fn, co * 1e3 * u.mM, ci * u.M, z, T * u.K, default_constants, uarg)
+            # the constants object of the package carries an older CODATA set: the expected value uses ITS R and F (in J/K/mol and C/mol)
+            Rp, Fp = si(v, default_constants.molar_gas_constant, u.joule / u.kelvin / u.mol), si(v, default_constants.Faraday_constant, u.coulomb / u.mol)
+            v.prove(label + ".same_physical_value", v.eq(si(v, withc, u.volt), Rp * T / (z * Fp) * math.log(co / ci), rel=1e-9, abs_=1e-12))
 
 
 @harness("C19", "electrical_mobility_from_D", functions=["chempy.einstein_smoluchowski:electrical_mobility_from_D"], div_mode="assume", samples=25)
